@@ -785,8 +785,17 @@ def rule_A9(ctx) -> None:
     ctx.floor("A9", "queue puts", n, 3)
     if bad:
         m, c, why = bad[0]
+        conc = None
+        if why == "put not awaited":
+            fn_ = mod.func(f"{CLS}.{m}")
+            for outer in ast.walk(fn_):
+                if isinstance(outer, ast.Call) and outer is not c and ast.unparse(outer.func).split(".")[-1] in ("gather", "create_task", "ensure_future", "wait", "as_completed", "TaskGroup") \
+                        and any(x is c for x in ast.walk(outer)):
+                    conc = ast.unparse(outer.func)
         ctx.refuted("A9", "queue-puts-awaited", ",".join(sorted({f"{m}:{w}" for m, _, w in bad})), mod.loc(c),
-                    f"{m}() uses {why} on the channel's queue; with a buffer_limit the queue can be full and QueueFull (or a lost put) strands receivers",
+                    (f"{m}() hands its puts to {conc}(...) instead of awaiting one after the other: on a bounded queue the items of one sender then wait as independent putters and "
+                     "can be delivered out of the order they were sent in" if conc else
+                     f"{m}() uses {why} on the channel's queue; with a buffer_limit the queue can be full and QueueFull (or a lost put) strands receivers"),
                     "buffer_limit=1, two receivers blocked, one item sent, close() in the same tick")
     else:
         ctx.proved("A9", "queue-puts-awaited", mod.rel, f"{n} puts, all awaited")
